@@ -432,13 +432,11 @@ def check_paral(case):
                 fo.append((lo, hi))
             opts.append(fo)
         good = False
-        code_choice = None
         for choice in itertools.product((0, 1), repeat=6):
             lo = sum(opts[f][c][0] for f, c in enumerate(choice)) / 12
             hi = sum(opts[f][c][1] for f, c in enumerate(choice)) / 12
             if float(lo) - 1e-12 <= wx <= float(hi) + 1e-12:
                 good = True
-                code_choice = choice
                 break
         if not good:
             lo = sum(opts[f][0][0] for f in range(6)) / 12
@@ -673,11 +671,12 @@ def check_cumdos(case):
     return ok(partial, case["grid"], f"nw={nw}", "spin-doubled" if case["spin"] else None)
 
 
-# cumdos first: its first case triggers the numba compilation of weights_tetra (5 s idle, much longer on a loaded
-# machine) so that the compile time is not charged to the budget of the large pure-function subs
+# 'paral' first: its first case triggers the numba compilation of weights_tetra in the signature used by the
+# production code (5 s on an idle machine, much longer on a loaded one), so that the compile time is charged to a
+# sub with a generous budget and cheap cases and not to the run()-based 'cumdos' sub
 SUBS = [
-    Sub("cumdos", _cumdos_strategy(), check_cumdos, quick=40, thorough=640, budget_quick=80, budget_thorough=420),
-    Sub("weights", weights_case_st, check_weights, quick=5000, thorough=160000, budget_quick=120, budget_thorough=420),
-    Sub("paral", paral_st, check_paral, quick=480, thorough=10000, budget_quick=50, budget_thorough=420),
-    Sub("groups", groups_st, check_groups, quick=960, thorough=24000, budget_quick=50, budget_thorough=420),
+    Sub("paral", paral_st, check_paral, quick=320, thorough=10000, budget_quick=100, budget_thorough=420),
+    Sub("cumdos", _cumdos_strategy(), check_cumdos, quick=40, thorough=640, budget_quick=60, budget_thorough=420),
+    Sub("weights", weights_case_st, check_weights, quick=5000, thorough=160000, budget_quick=100, budget_thorough=420),
+    Sub("groups", groups_st, check_groups, quick=640, thorough=24000, budget_quick=50, budget_thorough=420),
 ]
